@@ -489,13 +489,134 @@ impl Space for BigTables {
     }
 }
 
+/// The same coherence through ElfBytes: relocation sections (whose sh_entsize nobody validates)
+/// and dynamic tables reached through the section and through PT_DYNAMIC alone.
+struct FileTables;
+const FT_ENTSIZES: [u64; 9] = [u64::MAX, 0, 1, 7, 8, 12, 16, 24, 48]; // MAX = the structure's own size
+impl FileTables {
+    fn dims() -> [u64; 5] {
+        // enc, kind {REL, RELA, DYNAMIC by section, DYNAMIC by segment only}, whole entries 0..=5, ragged tail class, declared sh_entsize
+        [4, 4, 6, 3, FT_ENTSIZES.len() as u64]
+    }
+}
+impl Space for FileTables {
+    fn name(&self) -> String {
+        "ElfBytes: section_data_as_rels / section_data_as_relas / dynamic() via .dynamic / dynamic() and find_common_data() via PT_DYNAMIC alone on generated files: 0..=5 whole entries + a ragged tail of {0, 1, entsize-1} bytes x declared sh_entsize in {own size, 0, 1, 7, 8, 12, 16, 24, 48} (relocations only) x 4 encodings; the entries yielded are exactly the whole entries of the bytes, in order".into()
+    }
+    fn size(&self) -> u64 {
+        product(&Self::dims())
+    }
+    fn describe(&self, idx: u64) -> Value {
+        let d = unmix(idx, &Self::dims());
+        let kind = ["SHT_REL", "SHT_RELA", ".dynamic section", "PT_DYNAMIC only"][d[1] as usize];
+        json!({"encoding": ENCS[d[0] as usize].name(), "table": kind, "whole_entries": d[2], "ragged_tail_class": d[3], "declared_entsize": if d[4] == 0 { "own".to_string() } else { FT_ENTSIZES[d[4] as usize].to_string() }})
+    }
+    fn run(&self, idx: u64, out: &mut Outcome) {
+        use refmodel::image::*;
+        use refmodel::layout::{PT_DYNAMIC, SHT_DYNAMIC, SHT_PROGBITS, SHT_REL, SHT_RELA};
+        let d = unmix(idx, &Self::dims());
+        let enc = ENCS[d[0] as usize];
+        let kind = d[1] as usize;
+        let (t, k) = match kind {
+            0 => (7usize, Kind::Rel),
+            1 => (8, Kind::Rela),
+            _ => (3, Kind::Dyn),
+        };
+        let ent = layout(k, enc.class).size;
+        if kind >= 2 && d[4] != 0 {
+            out.count("entsize_variants_apply_to_relocations_only");
+            return;
+        }
+        let n = d[2] as usize;
+        let tail = [0, 1, ent - 1][d[3] as usize];
+        let blen = n * ent + tail;
+        let body: Vec<u8> = (0..blen).map(|i| (i as u8).wrapping_mul(29) ^ 0xa5 ^ ((i >> 2) as u8)).collect();
+        let declared = if d[4] == 0 { ent as u64 } else { FT_ENTSIZES[d[4] as usize] };
+        let mut spec = Spec::new(enc, TableOrder::TablesFirst);
+        let bytes: Vec<u8>;
+        let range: (usize, usize);
+        if kind == 3 {
+            // program headers only; the table's bytes follow the headers
+            spec.no_shdrs = true;
+            let ehsz = layout(Kind::Ehdr, enc.class).size as u64;
+            let phsz = layout(Kind::Phdr, enc.class).size as u64;
+            spec.segs = vec![Seg { p_type: PT_DYNAMIC, flags: 6, vaddr: 0, paddr: 0, align: 8, memsz_extra: 0, target: SegTarget::Range { offset: ehsz + phsz, filesz: blen as u64 } }];
+            let mut b = build(&spec);
+            let a = b.bytes.len();
+            assert_eq!(a as u64, ehsz + phsz);
+            b.bytes.extend_from_slice(&body);
+            b.bytes.extend_from_slice(&[0xEE; 5]);
+            range = (a, a + blen);
+            bytes = b.bytes;
+        } else {
+            let ty = [SHT_REL, SHT_RELA, SHT_DYNAMIC][kind];
+            spec.secs = vec![Sec::new(b".tab", ty, body.clone()).entsize(declared), Sec::new(b".pad", SHT_PROGBITS, vec![0xEE; 5])];
+            let b = build(&spec);
+            let (o, z) = b.sec_range(1);
+            range = (o as usize, (o + z) as usize);
+            bytes = b.bytes;
+        }
+        let data = &bytes[range.0..range.1];
+        let truth: Vec<u64> = (0..n).map(|i| ref_entry(t, enc, data, i)).collect();
+        let ctx = format!("{} {} with {} whole entries + {} bytes, declared sh_entsize {}", enc.name(), ["SHT_REL", "SHT_RELA", ".dynamic section", "PT_DYNAMIC only"][kind], n, tail, declared);
+        let r = subject(|| {
+            let f = elf::ElfBytes::<AnyEndian>::minimal_parse(&bytes).ok()?;
+            let cap = blen + 2;
+            Some(match kind {
+                0 => {
+                    let h = f.section_headers()?.get(1).ok()?;
+                    vec![("section_data_as_rels", f.section_data_as_rels(&h).ok().map(|it| it.take(cap).map(|x| x.dig()).collect::<Vec<u64>>()))]
+                }
+                1 => {
+                    let h = f.section_headers()?.get(1).ok()?;
+                    vec![("section_data_as_relas", f.section_data_as_relas(&h).ok().map(|it| it.take(cap).map(|x| x.dig()).collect::<Vec<u64>>()))]
+                }
+                _ => {
+                    let a = f.dynamic().ok().flatten().map(|t| (t.len(), t.iter().take(cap).map(|x| x.dig()).collect::<Vec<u64>>()));
+                    let c = f.find_common_data().ok().and_then(|c| c.dynamic).map(|t| (t.len(), t.iter().take(cap).map(|x| x.dig()).collect::<Vec<u64>>()));
+                    let mut v = Vec::new();
+                    for (name, x) in [("dynamic()", a), ("find_common_data().dynamic", c)] {
+                        v.push((name, x.map(|(len, items)| if len == items.len() { items } else { vec![u64::MAX; len + 1000] })));
+                    }
+                    v
+                }
+            })
+        });
+        out.transitions += 2;
+        match r {
+            Err(m) => out.violate(format!("panic:ElfBytes tables in {}", panic_site(&m)), m),
+            Ok(None) => out.violate("file-tables:generated file does not open", ctx),
+            Ok(Some(views)) => {
+                for (name, got) in views {
+                    match got {
+                        None => {
+                            // an empty PT_DYNAMIC / .dynamic may be reported as absent
+                            if !(kind >= 2 && blen == 0) {
+                                out.violate(format!("file-tables:{name} fails"), ctx.clone());
+                            }
+                        }
+                        Some(items) => {
+                            if items != truth {
+                                out.violate(format!("file-tables:{name}"), format!("{ctx}: {} entries are yielded{}, the bytes hold {} whole entries", items.len(), if items.len() == truth.len() { " (contents differ)" } else { "" }, truth.len()));
+                            }
+                        }
+                    }
+                }
+                if n > 0 {
+                    out.nontrivial(idx ^ 0xf17e);
+                }
+            }
+        }
+    }
+}
+
 pub fn build(tier: Tier) -> CheckDef {
     CheckDef {
         prop: "C09",
         level: "model_checking",
         rule: "complete grid of ragged table lengths x entry types x encodings x index alphabet against the reference decode (len = floor(bytes/entsize), get(i) Ok iff i < len, iteration = the whole entries in order); explicit-state exploration of iterator/table operation histories (states de-duplicated on the iterator's Debug state + the reference cursor) checking that no answer depends on history. non-trivial = table with at least one whole entry".into(),
         assumptions: vec!["entry contents are compared through the public fields of each type".into()],
-        spaces: vec![Box::new(Grid { full: tier == Tier::Thorough }), Box::new(Sequences { depth: tier.pick(4, 6) }), Box::new(BigTables)],
+        spaces: vec![Box::new(Grid { full: tier == Tier::Thorough }), Box::new(Sequences { depth: tier.pick(4, 6) }), Box::new(BigTables), Box::new(FileTables)],
         abort_is_violation: false,
         hang_is_violation: true,
         exhaustive: true,
